@@ -174,8 +174,9 @@ package stdlibspec
 //@ extern fmt.Errorf
 //@   pure
 //@   ensures result != nil
-//@ extern errors.Join
+//@ extern errors.Join(errs)
 //@   pure
+//@   ensures (exists i int :: 0 <= i && i < len(errs) && errs[i] != nil) ==> result != nil
 //@ extern errors.Is
 //@   pure
 //@ extern errors.New
@@ -222,3 +223,47 @@ package stdlibspec
 //@   pure
 //@   fresh
 //@   ensures result != nil && result.Method == r.Method && result.URL == r.URL && result.Header == r.Header
+
+// ---------------------------------------------------------------------------
+// decoding helpers: total (no panic), results unconstrained
+// (used for the variant index only: writes the decoded value through the pointer in v)
+//@ extern encoding/json.Unmarshal(data, v)
+//@   requires typeis(v, *ResponseRefs)
+//@   assigns cell(as(v, *ResponseRefs))
+//@ extern encoding/json.Marshal(v)
+//@   pure
+//@ extern bytes.NewReader(b)
+//@   pure
+//@   ensures result != nil
+//@ extern bufio.NewReader(rd)
+//@   pure
+//@   fresh
+//@   ensures result != nil
+//@ extern (*bufio.Reader).ReadBytes(b, delim)
+//@   assigns cell(b)
+//@ extern bytes.TrimSpace(s)
+//@   pure
+//@ extern bytes.Split(s, sep)
+//@   pure
+//@   ensures forall i int :: 0 <= i && i < len(result) ==> allocated(result[i])
+//@ extern time.Parse(layout, value)
+//@   pure
+//@ extern net/http.ReadResponse(r, req)
+//@   assigns cell(r)
+//@   ensures (result0 != nil) != (result1 != nil)
+//@   ensures result0 != nil ==> result0.Header != nil && fresh(result0) && fresh(result0.Header)
+// DumpResponse(resp, true) drains resp.Body and replaces it with an in-memory copy.
+//@ extern net/http/httputil.DumpResponse(resp, body)
+//@   requires resp != nil
+//@   assigns resp.Body
+//@   ensures result1 != nil ==> len(result0) == 0
+//@ extern (*bytes.Buffer).Write(b, p)
+//@   assigns cell(b)
+//@ extern (*bytes.Buffer).Bytes(b)
+//@   pure
+//@ extern fmt.Fprintf
+//@   assigns *
+// slices.SortFunc permutes its argument and calls cmp only on elements of it.
+//@ extern slices.SortFunc(x, cmp)
+//@   assigns elems(x)
+//@   ensures forall i int :: 0 <= i && i < len(x) ==> exists j int :: 0 <= j && j < len(x) && x[i] == old(x[j])
